@@ -50,6 +50,16 @@ def make_block(kind, rows):
         return vals
     if kind == "mixed":
         return [v if i % 2 else rows[i][0] for i, v in enumerate(vals)]
+    if kind == "fsarray_slack":
+        # a block whose DECLARED width is larger than its rows (fsarray(rows, width=...) / a partly filled FSArray)
+        from curtsies.formatstringarray import FSArray
+
+        if len(vals) % 2:
+            return fsarray(vals, width=max([len(v) for v in vals] + [0]) + 4)
+        b = FSArray(len(vals), max([len(v) for v in vals] + [0]) + 7)
+        for i_, v in enumerate(vals):
+            b.rows[i_] = v
+        return b
     if not vals:
         return fsarray([])
     return fsarray(vals)
@@ -61,7 +71,7 @@ def block_cells(kind, rows):
         plain = kind == "str" or (kind == "mixed" and i % 2 == 0)
         att = () if plain else C.norm_atts(dict(a))
         out.append([(c, att) for c in t])
-    if kind == "fsarray" and rows:
+    if kind in ("fsarray", "fsarray_slack") and rows:
         w = max(len(t) for t, _ in rows)
         out = [r + [BLANK] * 0 for r in out]  # fsarray does not pad rows
     return out
@@ -165,7 +175,7 @@ def actions(H, W, sym, thorough):
                     lens = sorted(set(list(range(0, w + 2)) + [W - c0 + 1]))
                     for ln in lens:
                         for pal in ((), RED):
-                            kinds = ("str", "fmt", "fsarray") if (n <= 1 or thorough) else ("fmt",)
+                            kinds = ("str", "fmt", "fsarray", "fsarray_slack") if (n <= 1 or thorough) else ("fmt", "fsarray_slack")
                             for kind in kinds:
                                 if kind == "str" and pal:
                                     continue
@@ -232,7 +242,7 @@ def step(acc, a, grid, W, act, history):
     except Exception as ex:  # noqa
         raised = ex
     # the block is the caller's object: using it afterwards must not reach into the array (and the array must not have changed it)
-    if raised is None and kind == "fsarray" and kept and hasattr(kept[0], "rows"):
+    if raised is None and kind in ("fsarray", "fsarray_slack") and kept and hasattr(kept[0], "rows"):
         blk = kept[0]
         now0 = grid_of(a)
         shape0 = a.shape
@@ -306,6 +316,10 @@ def initial_states(thorough):
         out.append(("FSArray(%d,%d)" % (r, c), lambda r=r, c=c: FSArray(r, c)))
         if c >= 2:
             out.append(("FSArray(%d,%d,bg='blue')" % (r, c), lambda r=r, c=c: FSArray(r, c, bg="blue")))
+        if (r, c) in ((1, 2), (0, 2)):
+            # formatting given positionally (colour names, on_colour names, styles)
+            out.append(("FSArray(%d,%d,'blue')" % (r, c), lambda r=r, c=c: FSArray(r, c, "blue")))
+            out.append(("FSArray(%d,%d,'on_red','bold')" % (r, c), lambda r=r, c=c: FSArray(r, c, "on_red", "bold")))
     return out
 
 
@@ -569,6 +583,32 @@ def session_very_wide(args):
     return acc.export()
 
 
+def session_many_runs(args):
+    """One row painted cell by cell until it holds hundreds of runs whose neighbours have the same attribute NAMES with different
+    values (red / blue, on_red / on_blue, bold on red / bold on blue): every cell compared after every write."""
+    tier, seed, variant = args
+    from curtsies.formatstringarray import FSArray
+
+    acc = Acc(seed=seed, sample_stride=199)
+    W = 700 if tier == "thorough" else 400
+    pals = [((("fg", 31),), (("fg", 34),)), ((("bg", 41),), (("bg", 44),)), ((("bold", True), ("fg", 31)), (("bold", True), ("fg", 34))), ((("fg", 31),), (("fg", 34),), (("fg", 32),))][variant]
+    a = FSArray(2, W)
+    grid = grid_of(a)
+    order = list(range(0, W, 2)) + list(range(1, W, 2)) if variant % 2 else list(range(W))
+    for k, c in enumerate(order):
+        att = pals[c % len(pals)]
+        act = ("region", 0, 1, c, c + 1, "fmt", (("abcdefg"[c % 7], att),))
+        acc.case(True, key=("runs", variant, k))
+        grid = step(acc, a, grid, W, act, [])
+        if grid is None:
+            break
+        if k % 16 == 15 or k > len(order) - 4:
+            case = {"session": "one row painted cell by cell", "palette": variant, "writes_so_far": k + 1, "runs_in_row_0": len(a.rows[0].chunks)}
+            if not check_reads_light(acc, a, grid, W, case):
+                break
+    return acc.export()
+
+
 def check_fsarray_ctor(acc):
     from curtsies.formatstring import fmtstr
     from curtsies.formatstringarray import fsarray
@@ -691,6 +731,8 @@ def run(ctx):
     shapes = [(2, 3), (3, 4)] if ctx.thorough else [(2, 3)]
     for d in ctx.pmap(session_same_object, [(ctx.tier, ctx.seed, sh, p, 12) for sh in shapes for p in range(12)]):
         rep.merge(d, "one_object_reads_between_assignments")
+    for d in ctx.pmap(session_many_runs, [(ctx.tier, ctx.seed, v) for v in range(4)]):
+        rep.merge(d, "rows_of_hundreds_of_runs")
     for d in ctx.pmap(session_very_wide, [(ctx.tier, ctx.seed, W) for W in (300, 1030, 4100, 8200, 10010, 16390, 65550, 70001)]):
         rep.merge(d, "arrays_thousands_of_columns_wide")
     for d in ctx.pmap(session_paint, [(ctx.tier, ctx.seed, rot) for rot in range(len(PAINT))]):
